@@ -492,6 +492,92 @@ func (u *Unit) checkReturn(f *Frame, rst *State, rets []Val) {
 			}
 		}
 	}
+	// frame stated as "preserves": a verified unit must leave every pre-existing object of the listed classes untouched
+	// (unless the frame is explicitly taken on trust with frame-assumed, which is reported as an assumption)
+	if len(spec.Preserves) > 0 && !spec.Assumed && !spec.FrameAssumed && !spec.ModSet {
+		pms := itemsMatchers(spec.Preserves, spec.Pkg)
+		overlaps := func(a, b matcher) bool {
+			switch {
+			case a.exact != "" && b.exact != "":
+				return a.exact == b.exact
+			case a.exact != "":
+				return strings.HasPrefix(a.exact, b.prefix)
+			case b.exact != "":
+				return strings.HasPrefix(b.exact, a.prefix)
+			}
+			return strings.HasPrefix(a.prefix, b.prefix) || strings.HasPrefix(b.prefix, a.prefix)
+		}
+		covers := func(keep []matcher, pm matcher) bool {
+			for _, k := range keep {
+				if k.exact != "" && pm.exact == k.exact {
+					return true
+				}
+				if k.prefix != "" && (strings.HasPrefix(pm.exact, k.prefix) && pm.exact != "" || pm.prefix != "" && strings.HasPrefix(pm.prefix, k.prefix)) {
+					return true
+				}
+			}
+			return false
+		}
+		// 1. every known class of the preserved set: unchanged on pre-existing objects
+		for _, c := range sortedKeys(u.classSort) {
+			if !matchAny(pms, c) || strings.HasPrefix(c, "MapLen.") {
+				continue
+			}
+			srt := u.classSort[c]
+			cur := u.heapGet(rst, c, srt)
+			init := u.genConst(0, c, srt)
+			if cur.S != init.S {
+				u.addObl(rst, "frame", "preserves:"+c, u.frameGoal(c, init, cur), nil)
+			}
+		}
+		// 2. classes this unit never touches itself: no callee on the way may forget them
+		seenEv := map[int]bool{}
+		reported := map[string]bool{}
+		var walk func(g int)
+		walk = func(g int) {
+			for g != 0 && !seenEv[g] {
+				seenEv[g] = true
+				e := u.events[g]
+				if e.merge {
+					for _, p := range e.preds {
+						walk(p)
+					}
+					return
+				}
+				for _, pm := range pms {
+					name := pm.exact + pm.prefix
+					if pm.exact != "" {
+						if _, known := u.classSort[pm.exact]; known {
+							continue // decided by 1.
+						}
+					}
+					bad := false
+					if e.all {
+						bad = !covers(e.pats, pm)
+					} else {
+						for _, hp := range e.pats {
+							if overlaps(hp, pm) {
+								// a wildcard in the unit's own list is decided class by class in 1. when every class it
+								// forgets is known; an unknown class under a forgotten prefix is not
+								if pm.prefix != "" && hp.exact != "" {
+									if _, known := u.classSort[hp.exact]; known {
+										continue
+									}
+								}
+								bad = true
+							}
+						}
+					}
+					if bad && !reported[name] {
+						reported[name] = true
+						u.addObl(rst, "frame", "preserves:callee-forgets:"+name, False, nil).Text = "a callee on the way does not promise to preserve " + name
+					}
+				}
+				g = e.prev
+			}
+		}
+		walk(rst.gen)
+	}
 }
 
 // frameGoal: for all pre-existing objects the class is unchanged.
